@@ -70,8 +70,12 @@ class Real:
         self.seq = 0
         self.cls = None
         self.obj = None
+        # a oneway call of a non-callable dies inside its thread (by design nothing is reported to the client); keep stderr clean
+        self._excepthook = threading.excepthook
+        threading.excepthook = lambda args: None
 
     def close(self):
+        threading.excepthook = self._excepthook
         self.daemon.close()
 
     # ---------------------------------------------------------------- materialise
@@ -155,7 +159,7 @@ class Real:
                 obj.__dict__[key] = self._val(v)
         except AttributeError as x:
             del self.log[:]
-            return "attr"
+            return "priv" if str(x).startswith("exposing private names") else "attr"
         del self.log[:]
         self.cls, self.obj = cls, obj
         self.daemon.register(obj, "c02target")
